@@ -1053,6 +1053,141 @@ def compaction_remove(tu, f, F, al):
     return stage == 3 and F.observers['ct'].startswith('std::vector<')
 
 
+def end_pos(tu, e, F, al):
+    """k if e designates the position end()-k of the observer list (k = 0 for end()), else None"""
+    if is_list_end(tu, e, F, al, ('end', 'cend')):
+        return 0
+    x = unwrap_iter(tu, e)
+    if x is None:
+        return None
+    if x.get('kind') == 'CXXOperatorCallExpr' and tu.sd(x).get('q', '').split('::')[-1] == 'operator-':
+        a = tu.kids(x)[1:]
+        if len(a) == 2 and is_list_end(tu, a[0], F, al, ('end', 'cend')):
+            cv = tu.sd(tu.strip(a[1])).get('cv') or tu.sd(a[1]).get('cv')
+            if cv is not None and int(cv) >= 0:
+                return int(cv)
+    if x.get('kind') == 'CallExpr' and tu.sd(x).get('q') == 'std::prev':
+        s_, o_, a = tu.call_parts(x)
+        if len(a) >= 1 and is_list_end(tu, a[0], F, al, ('end', 'cend')):
+            if len(a) == 1 or tu.strip(a[1]).get('kind') == 'CXXDefaultArgExpr':
+                return 1
+            cv = tu.sd(tu.strip(a[1])).get('cv')
+            return int(cv) if cv is not None and int(cv) >= 0 else None
+    return None
+
+
+def remove_by_paths(tu, f, F, al):
+    """removeObserver with fast paths, decided path by path with a small list model.  Accepted per path:
+      * nothing removed when the list is empty (condition L.empty());
+      * L.pop_back() under the condition L.back() == &arg (the observer is the last entry; registered once, R-C19-1);
+      * L.erase(std::remove(L.begin(), L.end()-k, &arg), L.end()-k): the range searched and the range truncated end at the
+        same position (k = 0, or k = 1 on a path where L.back() != &arg was established).
+    std::remove(first, last, v) compacts [first, last) and returns the new end of *that* range; erase(new_end, e) drops
+    everything up to e: with last != e the elements of [last, e) are dropped without having been compared (last < e) or a
+    stale tail survives (last > e): recognised-wrong.  Returns ('ok', text) / ('violation', kind, text) / None"""
+    g = tu.cfg(f)
+    if g is None or g.back_edges():
+        return None
+
+    def cond_kind(c):
+        """('empty', pol) / ('back-is-arg', pol): what the condition says when it evaluates to true"""
+        c = tu.strip(c, casts=True)
+        pol = True
+        while c is not None and c.get('kind') == 'UnaryOperator' and c.get('opcode') == '!':
+            pol = not pol
+            c = tu.strip(tu.kids(c)[0], casts=True)
+        if c is None:
+            return None
+        if c.get('kind') == 'CXXMemberCallExpr':
+            sd, obj, a = tu.call_parts(c)
+            if sd.get('q', '').split('::')[-1] == 'empty' and obj is not None and list_expr(tu, obj, F, al):
+                return ('empty', pol)
+        if c.get('kind') == 'BinaryOperator' and c.get('opcode') in ('==', '!='):
+            l, r = tu.kids(c)
+            for x, y in ((l, r), (r, l)):
+                x0 = tu.strip(x, casts=True)
+                if x0 is not None and x0.get('kind') == 'CXXMemberCallExpr':
+                    sd, obj, a = tu.call_parts(x0)
+                    if sd.get('q', '').split('::')[-1] == 'back' and obj is not None and list_expr(tu, obj, F, al) and \
+                            (addr_of_param(tu, y, f) or is_target_local(y)):
+                        return ('back-is-arg', pol == (c['opcode'] == '=='))
+        return None
+
+    targets = set()
+    for x in tu.walk(tu.body(f)):
+        if x.get('kind') == 'VarDecl' and tu.kids(x) and addr_of_param(tu, tu.kids(x)[-1], f) and \
+                'const' in x.get('type', {}).get('qualType', '').split('*')[-1]:
+            targets.add(x['id'])
+
+    def is_target_local(e):
+        return tu.ref_decl(e) in targets
+
+    verdicts = []
+    for path in cfg_paths(g):
+        facts = {}
+        muts, removes = [], []
+        for blk, taken in path:
+            for e in blk.el:
+                if e[0] != 'S':
+                    continue
+                x = tu.node(e[1])
+                if x is None:
+                    continue
+                if x.get('kind') == 'CallExpr' and tu.sd(x).get('q') == 'std::remove':
+                    removes.append(x)
+                if x.get('kind') in ('CXXMemberCallExpr', 'CXXOperatorCallExpr'):
+                    sd, obj, args = tu.call_parts(x)
+                    nm = sd.get('q', '').split('::')[-1]
+                    if obj is not None and list_expr(tu, obj, F, al) and nm not in ('begin', 'end', 'cbegin', 'cend', 'size', 'empty', 'back', 'front'):
+                        muts.append((nm, x, args))
+            if taken is not None and blk.cond is not None and len(blk.succ) == 2:
+                ck = cond_kind(tu.node(blk.cond))
+                if ck is not None:
+                    facts[ck[0]] = (ck[1] == (taken == 0))
+        names = [m[0] for m in muts]
+        if not muts and not removes:
+            verdicts.append(('ok', 'empty list: nothing to remove') if facts.get('empty') is True else None)
+        elif names == ['pop_back'] and not removes:
+            verdicts.append(('ok', 'pop_back when back() == &arg') if facts.get('back-is-arg') is True else None)
+        elif names == ['erase'] and len(removes) == 1:
+            s_, o_, ra = tu.call_parts(removes[0])
+            ea = muts[0][2]
+            if len(ra) != 3 or not is_list_end(tu, ra[0], F, al, ('begin', 'cbegin')) or not (addr_of_param(tu, ra[2], f) or is_target_local(ra[2])):
+                verdicts.append(None)
+                continue
+            first = unwrap_iter(tu, ea[0]) if ea else None
+            if first is None or first['id'] != removes[0]['id']:
+                verdicts.append(None)
+                continue
+            if len(ea) == 1:
+                verdicts.append(None)       # single-iterator erase: handled (rejected) by the normal-form rule
+                continue
+            k_search, k_erase = end_pos(tu, ra[1], F, al), end_pos(tu, ea[1], F, al)
+            if k_search is None or k_erase is None:
+                verdicts.append(None)
+            elif k_search != k_erase:
+                pos = lambda k: 'end()' if k == 0 else 'end()-%d' % k
+                verdicts.append(('violation', 'range-mismatch',
+                                 'std::remove searches [begin(), %s) but erase truncates the list up to %s: %s' % (
+                                     pos(k_search), pos(k_erase),
+                                     'the last %d element(s) are erased without having been compared with the observer to remove - a live, '
+                                     'still registered observer is dropped from the list, ~Observable will not clear its observee and it is '
+                                     'left with a dangling pointer' % (k_search - k_erase) if k_search > k_erase else
+                                     'a stale tail of moved-from entries (possibly the removed observer) stays in the list')))
+            elif k_search == 0 or (k_search == 1 and facts.get('back-is-arg') is False):
+                verdicts.append(('ok', 'erase(remove(begin, %s, &arg), same end)' % ('end()' if k_search == 0 else 'end()-1, back() != &arg')))
+            else:
+                verdicts.append(None)
+        else:
+            verdicts.append(None)
+    bad = [v for v in verdicts if v and v[0] == 'violation']
+    if bad:
+        return bad[0]
+    if verdicts and all(v and v[0] == 'ok' for v in verdicts):
+        return ('ok', '; '.join(sorted({v[1] for v in verdicts})))
+    return None
+
+
 def own_member_calls(tu, f):
     """calls to other members of Observable/Observer inside f (helpers the normal-form rules do not look into)"""
     out = []
@@ -1132,7 +1267,12 @@ def check_observable(ctx, tu, F, analysed):
                 and addr_of_param(tu, a[2], f):
             good_remove = r
     mutating = [c for c in calls if c[0] not in ('begin', 'end', 'cbegin', 'cend', 'size', 'empty')]
-    if compaction_remove(tu, f, F, al):
+    bypath = remove_by_paths(tu, f, F, al)
+    if bypath is not None and bypath[0] == 'violation':
+        ctx.violation(R1, inst, bypath[2], tu.fn_loc(f), key='%s|%s|%s|%s' % (R1, file, inst, bypath[1]))
+    elif bypath is not None and len(cfg_paths(tu.cfg(f))) > 1:
+        ctx.ok(R1, inst, 'every path removes exactly the given observer: ' + bypath[1], tu.fn_loc(f))
+    elif compaction_remove(tu, f, F, al):
         ctx.ok(R1, inst, 'hand-written stable compaction (the definition of std::remove) followed by erase(keep, end) on the observer list',
                tu.fn_loc(f))
     elif not mutating and not removes and own_member_calls(tu, f):
@@ -1732,12 +1872,17 @@ def check_timestamp(ctx, tu_src, tu_drv, lib_tus, analysed_names):
             msg = {'default': 'a default-constructed TimeStamp does not hold a fresh nextValue() result (%s): stamps are not unique',
                    'renew': 'renew() does not store a fresh nextValue() result (%s): a renewed stamp is not newer than all earlier ones',
                    'copy': 'the copy does not carry the source\'s value (%s)'}[role] % sorted(set(bad))
+            if others:
+                msg += ': ' + '; '.join(others) + (' - assigning an older stamp onto a newer one is a silent no-op' if role == 'copy' else '')
             ctx.violation(R3, inst, msg, t.fn_loc(f), key=key + 'value-' + '-'.join(sorted(set(bad))))
     if not need_default:
         ctx.broken('R-C19-3: the default constructor of TimeStamp has no body in the driver unit')
     # ---- who may write global / value
     n += 1
     bad = False
+    sites = []
+    conv = {a[2] for b_, i_, x_ in tu_src.cfg(fnext).stmts() for a in [atomic_call(tu_src, x_, is_global)] if a and a[0] == 'rmw' and a[1] >= 1}
+    conv0 = conv.pop() if len(conv) == 1 else None
     for t in [tu_src, tu_drv] + list(lib_tus):
         for f in t.functions.values():
             if f['dep'] or t.cfg(f) is None:
@@ -1749,7 +1894,18 @@ def check_timestamp(ctx, tu_src, tu_drv, lib_tus, analysed_names):
                     continue
                 if x.get('kind') in CALLS:
                     a = atomic_call(t, x, is_global)
-                    if a and a[0] in ('rmw', 'write'):
+                    if a and a[0] == 'rmw' and a[1] >= 1 and conv0 is not None:
+                        # a second allocation site (e.g. renew() inlined): consistent only if it hands out the same side of the increment
+                        if a[2] == conv0:
+                            sites.append('%s (%s)' % (f['q'], t.loc(x)))
+                        else:
+                            bad = True
+                            side = {'old': 'the value before its increment (post-increment / fetch_add)', 'new': 'the value after its increment (pre-increment)'}
+                            ctx.violation(R3, 'who-writes TimeStamp::global', '%s draws a stamp from global as %s while nextValue() hands out %s: the two '
+                                          'allocation sites hand out the same number - the stamp produced here equals the one the other site produces '
+                                          'next (or produced last), so stamps are not unique across the two sites' % (f['q'], side[a[2]], side[conv0]),
+                                          t.loc(x), key='%s|%s|%s|allocation-sites-disagree' % (R3, t.fn_file(f), fn_name(f)))
+                    elif a and a[0] in ('rmw', 'write'):
                         bad = True
                         ctx.violation(R3, 'who-writes TimeStamp::global', '%s modifies the global stamp counter outside nextValue(): stamps handed '
                                       'out are no longer unique/increasing' % f['q'], t.loc(x),
@@ -1767,7 +1923,9 @@ def check_timestamp(ctx, tu_src, tu_drv, lib_tus, analysed_names):
                     bad = True
                     ctx.undecided(R3, 'who-writes TimeStamp::global', '%s takes the address of the global counter' % f['q'], t.loc(x))
     if not bad:
-        ctx.ok(R3, 'who-writes TimeStamp::global', 'only nextValue() modifies global in %d library/driver units' % (2 + len(lib_tus)), SRC_T)
+        ctx.ok(R3, 'who-writes TimeStamp::global', 'only nextValue() %smodifies global in %d library/driver units' % (
+            ('and %d further allocation site(s) with the same increment side (%s) ' % (len(set(sites)), ', '.join(sorted(set(sites))[:3]))) if sites else '',
+            2 + len(lib_tus)), SRC_T)
     return n
 
 
@@ -1792,6 +1950,48 @@ def cached_source(t, f, ret):
 
 def refs_global(t, f):
     return any(x.get('id') and t.sd(x).get('q') == GLOBAL for x in t.walk(t.body(f))) if t.body(f) is not None else False
+
+
+def ref_param_effect(t, callee, pidx):
+    """effect of a free helper on the atomic it receives by reference as parameter pidx:
+    ('store', j)           on every path the atomic ends up holding parameter j (store / operator= / exchange);
+    ('guarded', j, text)   parameter j is installed by a compare-exchange whose retry/entry condition compares the current
+                           content with parameter j (a fetch-max / fetch-min): the old content is kept when the relation fails;
+    None                   anything else"""
+    g = t.cfg(callee)
+    ps = callee.get('params', [])
+    if g is None or pidx >= len(ps):
+        return None
+    pid = ps[pidx]['id']
+    on_param = lambda sd: sd.get('d') == pid
+    pindex = {p['id']: i for i, p in enumerate(ps)}
+    stores, cas, other = [], [], []
+    for b, i, x in g.stmts():
+        a = atomic_call(t, x, on_param)
+        if not a:
+            continue
+        sd, obj, args = t.call_parts(x)
+        if a[0] == 'load':
+            continue
+        if a[0] == 'write' and a[1] in ('store', 'operator=', 'exchange') and args and t.ref_decl(args[0]) in pindex:
+            stores.append((x, pindex[t.ref_decl(args[0])]))
+        elif a[0] == 'write' and a[1].startswith('compare_exchange') and len(args) >= 2 and t.ref_decl(args[1]) in pindex:
+            cas.append((x, t.ref_decl(args[0]), pindex[t.ref_decl(args[1])]))
+        else:
+            other.append(x)
+    if other:
+        return None
+    if stores and not cas and not g.back_edges() and len({j for x, j in stores}) == 1 and all(on_every_path(g, x['id']) for x, j in stores):
+        return ('store', stores[0][1])
+    if len(cas) == 1 and not stores:
+        x, evar, j = cas[0]
+        jid = ps[j]['id']
+        for y in t.walk(t.body(callee)):
+            if y.get('kind') == 'BinaryOperator' and y.get('opcode') in ('<', '>', '<=', '>='):
+                l, r = (t.ref_decl(k) for k in t.kids(y))
+                if {l, r} == {evar, jid} and evar is not None:
+                    return ('guarded', j, t.show(y))
+    return None
 
 
 def value_ops(t, f, VALUE, depth=0):
@@ -1845,6 +2045,9 @@ def value_ops(t, f, VALUE, depth=0):
         k = e.get('kind')
         if k == 'CallExpr' and t.sd(e).get('q') == NEXT:
             return 'fresh'
+        ag = atomic_call(t, e, is_global) if k in CALLS else None
+        if ag and ag[0] == 'rmw' and ag[1] >= 1:
+            return 'fresh'        # an inlined allocation: result of an atomic increment of global (its side is checked by who-writes)
         if k == 'DeclRefExpr':
             did = e.get('referencedDecl', {}).get('id')
             if did in env:
@@ -1890,6 +2093,7 @@ def value_ops(t, f, VALUE, depth=0):
         return v
 
     finals = []
+    notes = []
     for path in cfg_paths(g):
         curs = ['old']            # possible contents (several when a followed callee has several paths)
         env = {}
@@ -1943,6 +2147,20 @@ def value_ops(t, f, VALUE, depth=0):
                     continue
                 sd, obj, args = t.call_parts(x)
                 name = sd.get('q', '').split('::')[-1]
+                passed = [i for i, a_ in enumerate(args) if this_value(a_)] if not (obj is not None and this_value(obj)) else []
+                if passed and not re.match(r'std::', sd.get('q', '')):
+                    cal = t.callee_fn(x)
+                    eff = ref_param_effect(t, cal, passed[0]) if cal is not None and len(passed) == 1 else None
+                    if eff is None:
+                        und.append('the stamp value is handed by reference to %s at %s and its effect is not understood' % (sd.get('q'), t.loc(x)))
+                    elif eff[0] == 'store':
+                        curs = settle(classify(args[eff[1]], env), curs)
+                    else:
+                        w = classify(args[eff[1]], env)
+                        curs = ['conditional-%s' % (w if isinstance(w, str) else 'value')]
+                        notes.append('%s installs its argument only while `%s` holds (compare-exchange guarded by a comparison with the '
+                                     'current content) and keeps the old value otherwise' % (sd.get('q'), eff[2]))
+                    continue
                 if obj is not None and this_value(obj):
                     if name in ('operator=', 'store') and args:
                         curs = settle(classify(args[0], env), curs)
@@ -1969,7 +2187,7 @@ def value_ops(t, f, VALUE, depth=0):
                         not (name.startswith('operator ') and not name.startswith('operator=')):
                     und.append('call of %s on *this without a visible body at %s' % (sd.get('q'), t.loc(x)))
         finals += curs
-    return finals, [], sorted(set(und))
+    return finals, sorted(set(notes)), sorted(set(und))
 
 
 # ============================================================================================
